@@ -62,7 +62,22 @@ class Monitor:
                 # described by all particles, like a label with <= d distinct particles
                 _, inv = np.unique(pts, axis=0, return_inverse=True)
                 qv = np.bincount(np.ravel(inv), weights=pv)
-                n_eff = len(qv) if 1.0 / float(np.sum(qv ** 2)) > uu.shape[1] + 1 else 0
+                dd = uu.shape[1]
+                # ... decided by a bound on the probability that the library's weighted resample (resample_factor x cluster size
+                # draws) lands on <= d distinct rows: P <= C(m, d) * (mass of the d heaviest rows)^draws.  Below 1e-9 the
+                # collapse cannot be what happened and the label is judged; otherwise it is not (counted).
+                rf = int(k.get("resample_factor", a[1] if len(a) > 1 else 4))
+                m_rows = len(qv)
+                if m_rows <= dd:
+                    n_eff = 0
+                else:
+                    topq = float(np.sum(np.sort(qv)[-dd:]))
+                    draws = max(1, rf * len(pts))
+                    import math as _m
+                    logp = (_m.lgamma(m_rows + 1) - _m.lgamma(dd + 1) - _m.lgamma(m_rows - dd + 1)) + draws * _m.log(max(min(topq, 1.0), 1e-300))
+                    n_eff = m_rows if logp < _m.log(1e-9) else 0
+                    if n_eff == 0:
+                        mon.weighted_degenerate = getattr(mon, "weighted_degenerate", 0) + 1
                 mon.boxes[v] = (pts.min(0), pts.max(0), n_eff)
             mon.min_distinct = min(b[2] for b in mon.boxes.values())
             mon.total_distinct = len(np.unique(uu, axis=0))
@@ -265,6 +280,19 @@ def pool_case(seed, cfg):
                 if t >= when:
                     w = np.where(lab_all == dead % len(cent), w * 1e-30, w)
             w = w * rng.dirichlet(np.full(len(w), 2.0))
+            if cfg.get("heavy") is not None and t >= 1:
+                hc = cfg["heavy"] % len(cent)
+                rows_h = np.where(lab_all == hc)[0]
+                if len(rows_h) > 4 * d:
+                    jh = int(rows_h[int(rng.integers(len(rows_h)))])
+                    w[jh] = 0.0
+                    w[jh] = float(rng.uniform(2.0, 6.0)) * float(np.sum(w[rows_h]))
+                    # ... and the cluster as a whole holds a minor share of the pool
+                    share = float(rng.uniform(0.08, 0.3))
+                    rest = float(np.sum(w) - np.sum(w[rows_h]))
+                    if rest > 0:
+                        w[rows_h] *= share / (1 - share) * rest / float(np.sum(w[rows_h]))
+                    out["heavy"] = out.get("heavy", 0) + 1
             bgm = lab_all < 0
             if bgm.any() and (~bgm).any():
                 w[bgm] *= 0.004 * w[~bgm].sum() / w[bgm].sum()      # background: 0.4 % of the mass in many tiny weights (trimmed, yet selectable)
@@ -442,6 +470,8 @@ def run():
                    sudden=(None if rng.random() < 0.4 else (int(rng.integers(3)), int(rng.integers(1, 5)))),
                    victim=(None if rng.random() < 0.5 else int(rng.integers(0, 12))))
         cfg["tiny_beta"] = [None, None, None, 6.1e-5, 1e-7, 9.9e-5][i % 6]
+        # one particle carries ~3/4 of its cluster's weight (in-cluster ESS < 2) while the cluster keeps dozens of distinct rows
+        cfg["heavy"] = [None, 0, None, 1, None, 2, None][i % 7]
         tasks.append(("tvf.checks.c14:pool_case", dict(seed=ck.subseed("pool", i), cfg=cfg), None))
     for i, st, val in farm.run(tasks, timeout=600, progress="C14-pools"):
         kw = tasks[i][1]
@@ -455,6 +485,7 @@ def run():
         ck.event("synthetic pool sequences through Trainer.run + Resampler.run")
         ck.event("directed iterations (a chosen label loses all trimmed training points between refits)", val.get("directed", 0))
         ck.event("pool sequences cut short because the whole trimmed training set held <= d distinct points (not judged)", val.get("degenerate_pool", 0))
+        ck.event("iterations in which one particle carries most of its cluster's weight (the cluster keeps many distinct rows)", val.get("heavy", 0))
         ck.event("kernel entries (parallel_mcmc) checked", val["entries"])
         ck.event("kernel entries at a temperature strictly between 0 and 1e-4", val.get("tiny_beta", 0))
         ck.event("walkers whose actually-used mode was identified by a noise-free probe sweep", val.get("probed", 0))
